@@ -117,6 +117,9 @@ struct Out {
     registry_ops: u64,
     copies_checked: u64,
     max_len: usize,
+    duplicate_visits: u64,
+    slice_ops: u64,
+    conversions: u64,
 }
 
 fn execute(seed: u64, tier: Tier) -> (crate::kernel::run::RunOutcome<Out>, Vec<&'static str>) {
@@ -168,7 +171,12 @@ fn execute(seed: u64, tier: Tier) -> (crate::kernel::run::RunOutcome<Out>, Vec<&
                     // insert a whole job (all its singles) at legal positions: never before the departure / after the arrival
                     let job = &jobs[sys::monitor(|| p.usize(0, jobs.len() - 1))];
                     if sys::monitor(|| model.jobs().contains(&addr_job(job))) {
-                        continue;
+                        // a second visit of a job which is already in the tour: the structure supports it (set + sequence);
+                        // generated rarely and for single jobs only
+                        if !(matches!(job, Job::Single(_)) && sys::monitor(|| p.chance(0.12))) {
+                            continue;
+                        }
+                        sys::monitor(|| o.duplicate_visits += 1);
                     }
                     let singles: Vec<Arc<Single>> = match job {
                         Job::Single(s) => vec![s.clone()],
@@ -303,6 +311,39 @@ fn execute(seed: u64, tier: Tier) -> (crate::kernel::run::RunOutcome<Out>, Vec<&
                             o.issues.push(("registry-slice".into(), format!("deep_slice offers {:?}, expected {:?}", sliced, want)));
                         }
                     });
+                    // the slice is a registry over the kept actors only: acquire / release on it, incl. for actors it dropped
+                    let mut slice = slice;
+                    let mut slice_free: BTreeSet<usize> = sys::monitor(|| free.iter().copied().filter(|i| i % 2 == 0).collect());
+                    let kept: BTreeSet<usize> = sys::monitor(|| (0..actors.len()).filter(|i| i % 2 == 0).collect());
+                    for _ in 0..sys::monitor(|| p.usize(1, 4)) {
+                        let si = sys::monitor(|| p.usize(0, actors.len() - 1));
+                        let release = sys::monitor(|| p.chance(0.5));
+                        let ok = if release { slice.free_actor(&actors[si]) } else { slice.use_actor(&actors[si]) };
+                        let offered: BTreeSet<usize> = slice.available().filter_map(|a| id_of.get(&(Arc::as_ptr(&a) as usize)).copied()).collect();
+                        let all: BTreeSet<usize> = slice.all().filter_map(|a| id_of.get(&(Arc::as_ptr(&a) as usize)).copied()).collect();
+                        let next: BTreeSet<usize> = slice.next().filter_map(|a| id_of.get(&(Arc::as_ptr(&a) as usize)).copied()).collect();
+                        sys::monitor(|| {
+                            o.slice_ops += 1;
+                            let want_ok = if release { kept.contains(&si) && !slice_free.contains(&si) } else { slice_free.contains(&si) };
+                            if release && kept.contains(&si) {
+                                slice_free.insert(si);
+                            } else if !release {
+                                slice_free.remove(&si);
+                            }
+                            if ok != want_ok {
+                                o.issues.push(("registry-slice".into(), format!("{} of actor {si} on a slice keeping {:?} returned {ok}, expected {want_ok}", if release { "free_actor" } else { "use_actor" }, kept)));
+                            }
+                            if offered != slice_free || all != kept || !next.is_subset(&slice_free) {
+                                o.issues.push(("registry-slice".into(), format!("slice keeping {:?} offers {:?} (next {:?}, all {:?}), model {:?}", kept, offered, next, all, slice_free)));
+                            }
+                        });
+                    }
+                    let untouched: BTreeSet<usize> = registry.available().filter_map(|a| id_of.get(&(Arc::as_ptr(&a) as usize)).copied()).collect();
+                    sys::monitor(|| {
+                        if untouched != free {
+                            o.issues.push(("registry-copy-aliasing".into(), "acquire / release on a slice changed the original registry".to_string()));
+                        }
+                    });
                     what = "deep_copy/deep_slice";
                 }
                 3 => {
@@ -396,6 +437,43 @@ fn execute(seed: u64, tier: Tier) -> (crate::kernel::run::RunOutcome<Out>, Vec<&
         drop(reg_ctx);
         drop(registry);
         drop(tour);
+        // ------------------------------------------------ context -> solution: the registry of the solution agrees with its tours
+        {
+            use vrp_core::construction::heuristics::InsertionContext;
+            use vrp_core::models::Solution;
+            let environment = Arc::new(Environment::default());
+            let mut ctx = InsertionContext::new_empty(problem.clone(), environment);
+            let mut used: BTreeSet<usize> = BTreeSet::new();
+            let mut with_jobs: BTreeSet<usize> = BTreeSet::new();
+            let singles: Vec<Arc<Single>> = jobs.iter().filter_map(|j| j.as_single().cloned()).collect();
+            for _ in 0..sys::monitor(|| p.usize(1, actors.len().min(4))) {
+                let ai = sys::monitor(|| p.usize(0, actors.len() - 1));
+                if let Some(mut rc) = ctx.solution.registry.get_route(&actors[ai]) {
+                    sys::monitor(|| used.insert(ai));
+                    if !singles.is_empty() && sys::monitor(|| p.chance(0.6)) {
+                        let s = &singles[sys::monitor(|| p.usize(0, singles.len() - 1))];
+                        rc.route_mut().tour.insert_last(make_activity(s, 7));
+                        sys::monitor(|| with_jobs.insert(ai));
+                    }
+                    ctx.solution.routes.push(rc);
+                }
+            }
+            let solution: Solution = (ctx, None).into();
+            let offered: BTreeSet<usize> = solution.registry.available().filter_map(|a| id_of.get(&(Arc::as_ptr(&a) as usize)).copied()).collect();
+            let tours: BTreeSet<usize> = solution.routes.iter().filter_map(|r| id_of.get(&(Arc::as_ptr(&r.actor) as usize)).copied()).collect();
+            sys::monitor(|| {
+                o.conversions += 1;
+                o.steps += 1;
+                let want: BTreeSet<usize> = (0..actors.len()).filter(|i| !tours.contains(i)).collect();
+                if offered != want {
+                    o.issues.push(("solution-registry".into(), format!("a solution with tours of actors {:?} (context had routes {:?}, {:?} with jobs) offers actors {:?}, expected {:?}", tours, used, with_jobs, offered, want)));
+                }
+                if solution.routes.iter().any(|r| !r.tour.has_jobs()) {
+                    o.issues.push(("solution-registry".into(), "a solution carries a tour without jobs".to_string()));
+                }
+            });
+            drop(solution);
+        }
         o
     });
     (out, g.features.names())
@@ -419,6 +497,9 @@ fn run(seed: u64, tier: Tier) -> CaseRecord {
             rec.count("ops.tour", o.tour_ops);
             rec.count("ops.registry", o.registry_ops);
             rec.count("copies_checked", o.copies_checked);
+            rec.count("ops.duplicate_visits", o.duplicate_visits);
+            rec.count("ops.on_registry_slices", o.slice_ops);
+            rec.count("ops.context_to_solution", o.conversions);
             rec.count("tour_length_max_sum", o.max_len as u64);
             for (rule, msg) in o.issues {
                 rec.issues.push(IssueRec { prop: "C14".into(), rule, sig: String::new(), msg });
